@@ -132,6 +132,16 @@ var Properties = map[string]PropDef{
 		Outside:   "the flag package's own parsing of spellings, panics inside the real stages (C09, C11), benchmark and web-server modes, the exact text of diagnostics",
 		Harnesses: []HarnessDef{{Name: "cmd.ZZC18Cli"}},
 	},
+	"C15": {
+		ID: "C15", AssertPrefix: "C15.",
+		Bounds:      "types: every constructor (1, name, *, -*, +{} and &{} with 1 and 2 branches, both shifts) over children of every constructor to depth 2, identifiers = unconstrained string variables, labels and modes symbolic; terms: all 14 forms with `self` / identifier names and continuations to depth 1 (thorough: depth 2 with identifier names)",
+		Assumptions: []string{"opaque identifiers are z3 String variables constrained to [a-z]+; natively replayed with fixed identifiers", "comparison is on the Grits token sequence of the two texts (whitespace-insensitive)", "reference templates follow parser.y: %right TIMES LOLLI UP_ARROW DOWN_ARROW on one precedence level"},
+		Outside:     "StringWithModality (its [mode] markers are not grammar), explicit polarity and type annotations on names (omitted by the printers by design), parsing the printed text with the real parser (structural induction instead)",
+		Harnesses: []HarnessDef{
+			{Name: "types.ZZC15Types", Quick: map[string]int{"D": 2}},
+			{Name: "process.ZZC15Forms", Quick: map[string]int{"D": 1}, Thorough: map[string]int{"D": 2, "NAMEPICK": 0}},
+		},
+	},
 	"C06": {
 		ID: "C06", AssertPrefix: "C06.", Bounds: ruleBounds, Assumptions: ruleAssumptions,
 		Outside:   "shift legality inside type definitions is decided under C10; judgements nested deeper than one rule follow inductively from the probes",
